@@ -29,7 +29,9 @@ from __future__ import annotations
 import copy
 import itertools
 import math
+import random
 import re
+import traceback
 import warnings
 
 import torch
@@ -226,7 +228,17 @@ def as_view(t, mode):
         perm = list(range(r))[::-1] + [r]
         base = t.permute(perm).contiguous()
         return base.permute(perm), base          # reversing twice restores the order
+    if mode == "expand" and t.dim() >= 2 and t.shape[0] >= 1:
+        base = t[:1].clone()                     # stride-0 view: the first slice repeated along dim 0
+        return base.expand(t.shape), base
     return t, t
+
+
+def view_tags(tags, shape, mode):
+    """tags of the items actually held by `as_view(make_tagged(...), mode)`"""
+    if mode == "expand" and len(shape) >= 1 and shape[0] >= 1:
+        return tags.reshape(shape)[:1].expand(shape).reshape(-1)
+    return tags
 
 
 def torch_pairing(sa, sb):
@@ -277,11 +289,12 @@ def check_bcast(ctx: Ctx, case) -> bool:
     K = px.shape[0]
     xt, tx = make_tagged(px, sa, case["ox"])
     yt, ty = make_tagged(py, sb, case["oy"])
-    wide = site[1] in ("add", "alg_add") and case.get("wide") and case["ycase"] == "plain"
+    wide = site[1] in ("add", "alg_add") and case.get("wide") and case["ycase"] == "plain" and not case.get("yview")
     if wide:
         yt = torch.cat([yt, torch.full(yt.shape[:-1] + (1,), 7.0, dtype=yt.dtype)], dim=-1)  # documented: wider `other`
     xt, xbase = as_view(xt, case.get("xview"))
     yt, ybase = as_view(yt, case.get("yview"))
+    tx, ty = view_tags(tx, sa, case.get("xview")), view_tags(ty, sb, case.get("yview"))
     X = _lie(xt, spec["px"])
     y = wrap_second(site, case["ycase"], yt)
     x0, y0 = xbase.clone(), ybase.clone()
@@ -363,8 +376,8 @@ def compare_bcast_model(ctx: Ctx, case, model):
     K = px.shape[0]
     n = numel(model["shape"])
     v = torch.tensor(model["vals"], dtype=torch.long).reshape(n, 2)
-    tx = (torch.arange(numel(sa)) + case["ox"]) % K
-    ty = (torch.arange(numel(sb)) + case["oy"]) % K
+    tx = view_tags((torch.arange(numel(sa)) + case["ox"]) % K, sa, case.get("xview"))
+    ty = view_tags((torch.arange(numel(sb)) + case["oy"]) % K, sb, case.get("yview"))
     exp = T[tx[v[:, 0]], ty[v[:, 1]]]
     tol = 256 * common.EPS[dtype]
     if got.shape != exp.shape or not bool(((got - exp).abs() <= tol * (1 + exp.abs().amax(dim=-1, keepdim=True))).all()):
@@ -416,46 +429,70 @@ def stream_binputs(ctx: Ctx, pairs):
             ctx.disagree("binputs", case, f"broadcast_inputs(x, None) on {s}: model {m}")
 
 
-CORE = [(), (0,), (1,), (2,), (3,), (1, 1), (1, 2), (2, 1), (2, 3), (0, 2), (2, 0), (1, 0), (3, 1, 2), (2, 1, 3), (1, 1, 1), (2, 0, 3)]
+CORE = [(), (0,), (1,), (3,), (2, 1), (1, 3), (2, 3), (0, 2), (2, 1, 3), (1, 1, 1)]
+# beyond the exhaustive range of the quantifier (rank <= 3, extents <= 3): the clause says "every batch rank"
+BIG = [(5,), (7, 2), (6, 1), (2, 1, 3, 2), (4, 1, 1, 2), (1, 1, 1, 1, 2), (2, 2, 2, 2, 2), (3, 1, 2, 1, 2, 1), (0, 1, 2, 3, 1)]
+VIEWS = [None, "slice", "perm", "expand"]
+
+
+def det_rng():
+    """generator of the deterministic corner corpora: the same cases for every VERIF_SEED"""
+    return random.Random(20260925)
+
+
+def mk_bcast(rng, site, sa, sb, k=None):
+    spec = SITES[site]
+    apis = sorted(spec["apis"])
+    return {"kind": "bcast", "site": list(site), "sa": list(sa), "sb": list(sb),
+            "api": apis[k % len(apis)] if k is not None else rng.choice(apis), "ycase": rng.choice(["lie", "plain"]),
+            "dtype": "float64" if rng.random() < 0.7 else "float32",
+            "ox": rng.randrange(Pools.K), "oy": rng.randrange(Pools.K),
+            "wide": rng.random() < 0.25,
+            "xview": rng.choice(VIEWS + [None]), "yview": rng.choice(VIEWS + [None])}
+
+
+def corpus_bcast():
+    """deterministic corner corpus: every op site x every broadcastable pair of the core lshapes, and pairs of
+    lshapes beyond rank 3 / extent 3 with rotating sites"""
+    rng = det_rng()
+    cases = []
+    core_pairs = [(a, b) for a in CORE for b in CORE if py_broadcast(a, b) is not None]
+    for si, site in enumerate(SITE_KEYS):
+        for pi, (sa, sb) in enumerate(core_pairs):
+            cases.append(mk_bcast(rng, site, sa, sb, k=si + pi))
+    big_pairs = [(a, b) for a in BIG + CORE[:6] for b in BIG if py_broadcast(a, b) is not None]
+    big_pairs += [(b, a) for a in CORE[:6] for b in BIG if py_broadcast(a, b) is not None]
+    for pi, (sa, sb) in enumerate(big_pairs):
+        for j in range(3):
+            cases.append(mk_bcast(rng, SITE_KEYS[(pi * 3 + j * 13) % len(SITE_KEYS)], sa, sb, k=pi + j))
+    for pi, (sa, sb) in enumerate([((2,), (3,)), ((2, 3), (2,)), ((5,), (7, 2)), ((2, 1, 3, 2), (3, 1)), ((0,), (2,)), ((3,), (0,))]):
+        for j in range(6):
+            cases.append(mk_bcast(rng, SITE_KEYS[(pi * 7 + j * 5) % len(SITE_KEYS)], sa, sb, k=j))
+    return cases, big_pairs
 
 
 def gen_bcast_cases(ctx: Ctx, good_pairs, bad_pairs):
     rng = ctx.rng
-    cases = []
-
-    def mk(site, sa, sb):
-        spec = SITES[site]
-        return {"kind": "bcast", "site": list(site), "sa": list(sa), "sb": list(sb),
-                "api": rng.choice(sorted(spec["apis"])), "ycase": rng.choice(["lie", "plain"]),
-                "dtype": "float64" if rng.random() < 0.7 else "float32",
-                "ox": rng.randrange(Pools.K), "oy": rng.randrange(Pools.K),
-                "wide": rng.random() < 0.25,
-                "xview": rng.choice([None, None, "slice", "perm"]), "yview": rng.choice([None, None, "slice", "perm"])}
+    cases, _ = corpus_bcast()
     ops_g = ["mul", "act3", "act4", "adj", "adjT", "jinvp", "retr", "add"]
     if ctx.quick:
-        # every broadcastable pair meets every op (group rotating with pair, op and seed) ...
+        # every broadcastable pair meets two of the eight group ops (ops and group rotating with pair, op and seed)
         for pi, (sa, sb) in enumerate(good_pairs):
             for oi, op in enumerate(ops_g):
                 g = GROUPS[(pi + oi + ctx.seed) % 4]
-                if (pi * 5 + oi + ctx.seed) % 8 >= 3:
-                    continue        # three of the eight group ops per pair and run (rotating with pair, op, seed)
-                cases.append(mk((g, op), sa, sb))
-            if (pi + ctx.seed) % 2:
-                cases.append(mk((ALGEBRA[GROUPS[(pi + ctx.seed) % 4]], "alg_add"), sa, sb))
-        # ... and every site meets every pair of the core set
-        core_pairs = [(a, b) for a in CORE for b in CORE if py_broadcast(a, b) is not None]
-        for site in SITE_KEYS:
-            for (sa, sb) in core_pairs:
-                if rng.random() < 0.35:
-                    cases.append(mk(site, sa, sb))
-        for (sa, sb) in rng.sample(bad_pairs, 260):
-            cases.append(mk(rng.choice(SITE_KEYS), sa, sb))
+                if (pi * 5 + oi + ctx.seed) % 8 >= 2:
+                    continue
+                cases.append(mk_bcast(rng, (g, op), sa, sb))
+            if (pi + ctx.seed) % 3 == 0:
+                cases.append(mk_bcast(rng, (ALGEBRA[GROUPS[(pi + ctx.seed) % 4]], "alg_add"), sa, sb))
+        for (sa, sb) in rng.sample(bad_pairs, 200):
+            cases.append(mk_bcast(rng, rng.choice(SITE_KEYS), sa, sb))
     else:
         for site in SITE_KEYS:
             for (sa, sb) in good_pairs:
-                cases.append(mk(site, sa, sb))
+                cases.append(mk_bcast(rng, site, sa, sb))
         for (sa, sb) in bad_pairs:
-            cases.append(mk(rng.choice(SITE_KEYS), sa, sb))
+            cases.append(mk_bcast(rng, rng.choice(SITE_KEYS), sa, sb))
     return cases
 
 
@@ -472,11 +509,11 @@ def stream_bcast(ctx: Ctx):
             t = None
         if t != py_broadcast(a, b):
             raise common.InfraError(f"harness reference py_broadcast disagrees with torch on {a} x {b}")
-    stream_binputs(ctx, good)
+    stream_binputs(ctx, corpus_bcast()[1] + good)
     cases = gen_bcast_cases(ctx, good, bad)
     model = model_pairs(ctx, sorted({(tuple(c["sa"]), tuple(c["sb"])) for c in cases}))
     model_add = model_add_pairs(ctx, sorted({(tuple(c["sa"]), tuple(c["sb"])) for c in cases if c["site"][1] == "add"}))
-    for (a, b) in good:
+    for (a, b) in corpus_bcast()[1] + good:
         m = model.get((a, b))
         if m is not None and (m["shape"] != py_broadcast(a, b) or m["last"] != 4):
             ctx.disagree("bcast", {"kind": "bshape", "sa": list(a), "sb": list(b)},
@@ -775,6 +812,7 @@ def check_unary(ctx: Ctx, case) -> bool:
     pool = POOLS.get(lt, dtype)
     xt, tags = make_tagged(pool, s, case["ox"])
     xt, xbase = as_view(xt, case.get("xview"))
+    tags = view_tags(tags, s, case.get("xview"))
     X = _lie(xt, lt)
     x0 = xbase.clone()
     try:
@@ -803,9 +841,10 @@ def check_unary(ctx: Ctx, case) -> bool:
         return False
     if numel(s):
         T = unary_table(ctx, lt, op, fn, dtype)
-        exp = T[tags].reshape(s + trail)
+        exp = T[tags].reshape((numel(s), -1))
+        got = _plain(r).reshape((numel(s), -1))
         tol = 256 * common.EPS[dtype]
-        if not bool(((_plain(r) - exp).abs() <= tol * (1 + exp.abs().max())).all()):
+        if not bool(((got - exp).abs() <= tol * (1 + exp.abs().amax(dim=-1, keepdim=True))).all()):
             ctx.fail(case, f"itemwise: {lt}.{op} ({api}) on lshape {s} differs from the op applied item by item")
             ok = False
     return ok
